@@ -241,7 +241,13 @@ ThoroughFamilies == {Fam(1, "core", TRUE), Fam(2, "core", TRUE), Fam(2, "attr", 
                      Fam(2, "glob", FALSE), Fam(2, "uattr", FALSE), Fam(2, "clo", FALSE), Fam(3, "clo", FALSE),
                      Fam(2, "hlp", TRUE)}
 ThoroughInputs == {<<1, 0>>, <<0, 1>>}
-SimFamilies == {Fam(n, al, TRUE) : n \in AllSkeletons, al \in {"full", "clomix", "hlp", "umix"}}
+SimFamilies == {Fam(n, "full", TRUE) : n \in AllSkeletons}
+(* closures, helpers with their own branching, underscore / class-level attributes inside branches and loops *)
+(* (the nested skeletons a second time, unchained, with the helper alphabet: calls of branching helpers next to   *)
+(* nested decisions of the caller)                                                                               *)
+NestedSkeletons == {11, 12, 14, 15, 16, 21, 22}
+SimFamiliesNew == {Fam(n, al, TRUE) : n \in AllSkeletons, al \in {"clomix", "hlp", "umix"}}
+                  \cup {Fam(n, "hlp", FALSE) : n \in NestedSkeletons}
 AllInputs == (0..2) \X (0..2)
 
 Emit == done => PrintT(<<"HIST", js>>)
